@@ -261,15 +261,20 @@ where
                             None => SessionStopReason::RemoteEnded,
                         },
                     });
-                    // if control is closing, finish sending all buffered messages before closing
                     self.outgoing_link_frames.close();
-                    while let Some(frame) = self.outgoing_link_frames.recv().await {
-                        self.on_outgoing_link_frames(frame).await?;
-                    }
+                    // Frames the links handed over before they learnt of the peer's end can no
+                    // longer be sent (the session is in END_RCVD): they are dropped - the links
+                    // learn why from the stop reason - instead of failing the session with an
+                    // illegal state of its own
+                    while let Some(_frame) = self.outgoing_link_frames.recv().await {}
 
-                    self.session.send_end(&self.outgoing, None).await?;
+                    // What can no longer be written must not hide what the peer's end said
+                    let answered = self.session.send_end(&self.outgoing, None).await;
+                    result?;
+                    answered?;
+                } else {
+                    result?;
                 }
-                result?;
             }
         }
 
@@ -513,7 +518,10 @@ where
                 self.end_session(Some(error)).await
             }
             SessionInnerError::RemoteEnded | SessionInnerError::RemoteEndedWithError(_) => {
-                self.end_session(None).await
+                // Answering is best effort: the peer's end is why the session stops, also when
+                // the answer can no longer be written
+                let _ = self.end_session(None).await;
+                Ok(Running::Stop)
             }
 
             #[cfg(not(target_arch = "wasm32"))]
